@@ -158,6 +158,32 @@ CLAIMED.update({
         design_ref='DESIGN.md §6 C04'),
 })
 
+CLAIMED.update({
+    'C06': dict(
+        text='Lean 4 model of rigs_remove/rigs_recover as entry-list rewriting over an abstract pose composition (C05 supplies the '
+             'group laws); theorems for any rig forest and trajectory: free entries untouched, every entry after replacement is '
+             'the pose implied by an original entry and the chain of mountings below it (soundness), every sensor below an entry '
+             'gets exactly that pose within the pass budget (completeness), no rig id remains for nesting <= max_depth, identity '
+             'without rigs; recovery after replacement restores every top-level rig pose and keeps free entries for depth-1 rigs '
+             'without master sensors (PARTIAL, full statement kept as recover_remove_statement). Tied by correspondence with the '
+             'exact-rational pose algebra on nested forests, masters, in-place and copying variants.',
+        note=COMMON_NOTE + 'dict overwrite under conflicting pose sources is excluded by the quantifier; recovery with nesting and '
+             'master sensors is covered by correspondence and oracle only.',
+        technique='Lean 4 proof (induction on passes and mounting derivations) + exact-rational differential correspondence',
+        design_ref='DESIGN.md §6 C06'),
+    'C20': dict(
+        text='Lean 4 file-tree model of both upgrade routes sharing one plan; theorems for any tree: moving data files deepest '
+             'first files every one under its type with ITS OWN content (no file lands on a file still to be moved — the D20 '
+             'defect, whose shallow-first counterexample is a theorem), in-place = copy on every destination, other files '
+             'untouched, the sort used is deepest-first and a permutation, tables keep every line after the version line, both '
+             'routes succeed together. Tied by tree-for-tree correspondence of the real in-place, copy (each strategy) and '
+             'automatic routes on harness-written 1.0 directories, and by loading the results.',
+        note=COMMON_NOTE + 'shutil.move/copy are modelled as erase+set / set; records_data transfer is outside (C09 helpers); '
+             'element-type spellings resolve through the GENERATED table of dtype_from_name.',
+        technique='Lean 4 proof (depth-ordering argument on moves) + generated dtype table + tree differential correspondence',
+        design_ref='DESIGN.md §6 C20'),
+})
+
 NOT_YET = {
 }
 
